@@ -13,7 +13,9 @@ pub mod c07;
 pub mod c08;
 pub mod c09;
 pub mod c10;
+pub mod c11;
 pub mod c13;
+pub mod c17;
 pub mod c20;
 
 pub const ALL: &[&str] = &[
@@ -37,7 +39,9 @@ pub fn run(ctx: &mut Ctx) -> bool {
         "C08" => c08::run(ctx),
         "C09" => c09::run(ctx),
         "C10" => c10::run(ctx),
+        "C11" => c11::run(ctx),
         "C13" => c13::run(ctx),
+        "C17" => c17::run(ctx),
         "C20" => c20::run(ctx),
         _ => return false,
     }
@@ -59,7 +63,15 @@ pub fn replay(id: &str, sub: &str, case: &Value, ctx: &Ctx) -> Option<Verdict> {
             c09::replay(sub, case)
         }
         "C10" => c10::replay(sub, case),
+        "C11" => {
+            c11::set_cli(ctx.cli.clone(), ctx.cli_plain.clone(), ctx.root.clone());
+            c11::replay(sub, case)
+        }
         "C13" => c13::replay(sub, case),
+        "C17" => {
+            c17::set_cli(ctx.cli.clone(), ctx.cli_plain.clone(), ctx.root.clone());
+            c17::replay(sub, case)
+        }
         "C20" => c20::replay(sub, case),
         _ => None,
     }
